@@ -171,6 +171,8 @@ fn recv_is_woken_by_send<const QUEUED: usize, const WHEN: usize>() {
 }
 
 //@ obligation: C06.2.0
+//@ tier: thorough
+//@ property: C06
 //@ kind: K3
 //@ complete: yes
 //@ functions: mpsc::InnerQueue::recv, InnerQueue::try_recv, InnerQueue::send
@@ -191,6 +193,7 @@ fn c06_2a_recv_is_woken_by_send_0() {
 }
 
 //@ obligation: C06.2.1
+//@ property: C06
 //@ kind: K3
 //@ complete: yes
 //@ functions: mpsc::InnerQueue::recv, InnerQueue::try_recv, InnerQueue::send
@@ -211,6 +214,7 @@ fn c06_2a_recv_is_woken_by_send_1() {
 }
 
 //@ obligation: C06.2.2
+//@ property: C06
 //@ kind: K3
 //@ complete: yes
 //@ functions: mpsc::InnerQueue::recv, InnerQueue::try_recv, InnerQueue::send
@@ -231,6 +235,8 @@ fn c06_2a_recv_is_woken_by_send_2() {
 }
 
 //@ obligation: C06.2.3
+//@ tier: thorough
+//@ property: C06
 //@ mem: 30
 //@ timeout: 900
 //@ kind: K3
@@ -278,6 +284,8 @@ fn recv_observes_last_sender_drop<const QUEUED: usize, const WHEN: usize>() {
 }
 
 //@ obligation: C07.1.0
+//@ tier: thorough
+//@ property: C07
 //@ kind: K3
 //@ complete: yes
 //@ functions: mpsc::InnerQueue::recv, InnerQueue::try_recv, InnerQueue::drop_chan
@@ -296,6 +304,7 @@ fn c07_1a_recv_observes_last_sender_drop_0() {
 }
 
 //@ obligation: C07.1.1
+//@ property: C07
 //@ kind: K3
 //@ complete: yes
 //@ functions: mpsc::InnerQueue::recv, InnerQueue::try_recv, InnerQueue::drop_chan
@@ -314,6 +323,7 @@ fn c07_1a_recv_observes_last_sender_drop_1() {
 }
 
 //@ obligation: C07.1.2
+//@ property: C07
 //@ kind: K3
 //@ complete: yes
 //@ functions: mpsc::InnerQueue::recv, InnerQueue::try_recv, InnerQueue::drop_chan
@@ -332,6 +342,8 @@ fn c07_1a_recv_observes_last_sender_drop_2() {
 }
 
 //@ obligation: C07.1.3
+//@ tier: thorough
+//@ property: C07
 //@ mem: 30
 //@ timeout: 900
 //@ kind: K3
@@ -353,6 +365,7 @@ fn c07_1a_recv_observes_last_sender_drop_3() {
 
 
 //@ obligation: C07.1b
+//@ property: C07
 //@ kind: K3
 //@ complete: yes
 //@ functions: mpsc::InnerQueue::try_recv
@@ -394,9 +407,10 @@ fn pop_then_send_and_drop<T>(_q: &Queue<T>) -> Option<T> {
 }
 
 //@ obligation: C06.4a
+//@ tier: thorough
 //@ mem: 30
 //@ timeout: 900
-//@ property: C06 C07
+//@ property: C06
 //@ kind: K2
 //@ complete: yes
 //@ functions: mpsc::InnerQueue::send, InnerQueue::drop_port, InnerQueue::clone_chan, InnerQueue::drop_chan
@@ -448,7 +462,7 @@ fn unpark_checks_pushed(_b: &Blocker) {
 }
 
 //@ obligation: C06.canary
-//@ property: C06 C07
+//@ property: C06
 //@ kind: K3
 //@ canary: yes
 //@ functions: mpsc::InnerQueue::recv
